@@ -196,6 +196,22 @@ def run(ctx):
     rep = 0
     evals = 0
     switches_total = 0
+    import sys
+    settings0 = (sys.getrecursionlimit(), sys.getswitchinterval(), P.ParseCache.max_cache_size)
+    # a request that changes a PROCESS-WIDE setting while it runs changes what concurrent requests do (a deep request of another
+    # thread runs out of stack when the setting is put back): a single request of every kind must leave them as it found them
+    _g0 = [("r0", ("rep", 0, None, ("alt", [("lit", "a", False), ("cat", [("lit", "(", False), ("ref", 0), ("lit", ")", False)])], False)), None)]
+    _c0, _r0 = G.build(P, _g0)
+    for _kind, _src in (("parse", "a((a))a"), ("parse_all", "a(a)"), ("lparse", "((a))"), ("parse", "(" * 60 + ")" * 60)):
+        c08.request(P, _r0[0], _kind, _src, 0)
+        now = (sys.getrecursionlimit(), sys.getswitchinterval(), P.ParseCache.max_cache_size)
+        if now != settings0 and rep < 2:
+            found = True
+            rep += 1
+            ctx.report("a %s request changed process-wide settings (recursion limit, switch interval, default cache limit): %r -> %r" % (_kind, settings0, now),
+                       {"kind": "process-settings", "grammar": _g0, "request": [_kind, _src, 0], "before": list(map(str, settings0)), "after": list(map(str, now))},
+                       key="settings:" + _kind)
+            sys.setrecursionlimit(settings0[0])
     blocks = []
     exps = []
     samples = []
